@@ -16,7 +16,7 @@ def family(pid, tier, seed):
         n, exh, rnd = (24, 3, 60) if quick else (120, 3, 200)
         for i in range(n):
             kinds = [[], ["token", "tokens"], ["int8"], ["token", "tokens", "int8"]][i % 4]
-            g = GG.make_grammar(rng, "g%d" % i, extra_kinds=kinds, ks=(0, 1, 2, 3, 99999, -1, -3) if i % 3 == 0 else (0, 1, 2, -1))
+            g = GG.make_grammar(rng, "g%d" % i, extra_kinds=kinds, ks=(0, 1, 2, 3, 99999, -1, -3) if i % 3 == 0 else (0, 1, 2, -1), use_user=(i % 4 == 3))
             seen = set()
             GG.exhaustive_inputs(g, (exh if i % 2 == 0 else 2) if quick else (4 if i % 6 == 0 else 3), seen, extra_terms=("A",) if g["ci"] else ())
             GG.random_inputs(g, rng, rnd, 8, seen)
@@ -72,7 +72,7 @@ def family(pid, tier, seed):
     elif pid == "C11":
         n, exh, rnd = (20, 2, 80) if quick else (120, 3, 200)
         for i in range(n):
-            g = GG.make_grammar(rng, "g%d" % i, extra_kinds=["token", "tokens"] if i % 2 else [], with_pos=True, name_elided=(i % 3 == 2))
+            g = GG.make_grammar(rng, "g%d" % i, extra_kinds=["token", "tokens"] if i % 2 else [], with_pos=True, name_elided=(i % 3 == 2), use_user=(i % 4 == 1))
             seen = set()
             GG.exhaustive_inputs(g, exh, seen)
             GG.random_inputs(g, rng, rnd, 8, seen)
@@ -129,6 +129,10 @@ def curated_c11(rng):
     gs.append(mk_grammar("c2", [("P0", seq(grp("star", cap("A", "nodes", prod("P1"))), grp("opt", cap("B", "node", prod("P2")))), [F("A", "nodes", "P1"), F("B", "node", "P2")]),
                                ("P1", {"op": "alt", "kids": [seq(lit("("), cap("X", "string", ref("Ident")), lit(")")), seq(lit("("), cap("Y", "string", ref("Int")), lit(")"))]}, [F("X", "string"), F("Y", "string")]),
                                ("P2", seq(lit("("), grp("star", cap("Z", "strings", ref("Ident")))), [F("Z", "strings")])], with_pos=True, ks=(0, 1, 2, 3, -1)))
+    # nodes whose last (or only) token is taken by user code (Parseable) through PeekingLexer.Next()
+    gs.append(mk_grammar("c3", [("P0", grp("plus", cap("Items", "nodes", prod("P1"))), [F("Items", "nodes", "P1")]),
+                               ("P1", seq(cap("Name", "string", ref("Ident")), cap("W", "unode", {"op": "user"})), [F("Name", "string"), F("W", "unode")])], with_pos=True))
+    gs.append(mk_grammar("c4", [("P0", seq(grp("star", cap("Ws", "unodes", {"op": "user"}))), [F("Ws", "unodes")])], with_pos=True))
     for g in gs:
         seen = set()
         GG.exhaustive_inputs(g, 3, seen, extra_terms=("#k#",))
